@@ -12,8 +12,11 @@ Operation tokens (the harness vocabulary; `model_token` maps them to the model's
     suf:<L>       the same, logging to a file as well     (temp dir, removed)
     sl:<L>        emd.logger.set_level(<L>)
     dis | en      emd.logger.disable() | enable()
-    c:<V>:<m>[:<f>]   decorated sift call; V in N (verbose=None) O (verbose omitted) C W I D;
-                  m = r (returns) | x (raises: input shape (n,2,3) rejected) | y (raises: no convergence);
+    c:<V>:<m>[:<f>]   decorated sift call; V in N (verbose=None) O (verbose omitted) C W I D, or an UNDOCUMENTED verbosity
+                  B (verbose='debug') T (verbose=10) U (verbose='nonsense');
+                  m = r (returns) | x (raises: input shape (n,2,3) rejected) | y (raises: no convergence)
+                    | k (the signal passed by keyword, sift(X=x): sift_logger formats args[0].shape eagerly -> IndexError
+                         in every logger state; the expected outcome is whatever the untouched-logger baseline shows);
                   f = s (sift, default) | m (mask_sift) | a (mask_sift with array keyword arguments) | e (ensemble_sift, seeded) | c (complete_ensemble_sift, seeded)
 """
 import hashlib
@@ -35,6 +38,22 @@ VERB = ['N', 'C', 'W', 'I', 'D']
 ALPHABET = (['su:' + l for l in VERB] + ['sl:' + l for l in 'CWID'] + ['dis', 'en'] +
             ['c:%s:r' % v for v in VERB] + ['c:%s:x' % v for v in VERB])
 OWN_ERROR = {'x': 'ValueError', 'y': 'EMDSiftCovergeError'}
+BAD_VERB = {'B': 'debug', 'T': 10, 'U': 'nonsense'}           # not level names of `logging`: outside the documented values
+WRAP_ERROR = {'B': 'TypeError', 'T': 'TypeError', 'U': 'AttributeError'}   # what set_level raises on them once a console exists
+
+
+def baseline_key(tok):
+    v, mode, fn = parse_call(tok)
+    return 'k' if mode == 'k' else fn
+
+
+def own_error(tok, baseline):
+    """The error a raising call is expected to raise as its own (mode k: what the untouched-logger baseline shows)."""
+    mode = parse_call(tok)[1]
+    if mode == 'k':
+        b = str(baseline.get('k'))
+        return b[6:] if b.startswith('error:') else None
+    return OWN_ERROR.get(mode)
 CHILD_BUDGET_S = 300
 
 
@@ -55,12 +74,18 @@ def parse_call(tok):
     return p[1], p[2], (p[3] if len(p) > 3 else 's')
 
 
-def model_token(tok):
+def model_token(tok, baseline=None):
     p = tok.split(':')
     if p[0] == 'suf':
         return 'su:' + p[1]
     if p[0] == 'c':
-        return 'c:%s:%s' % ('N' if p[1] == 'O' else p[1], 'r' if p[2] == 'r' else 'x')
+        if p[2] == 'k':
+            returns = not str((baseline or {}).get('k')).startswith('error:')
+        else:
+            returns = p[2] == 'r'
+        if p[1] in BAD_VERB:
+            return 'cb:%s' % ('r' if returns else 'x')
+        return 'c:%s:%s' % ('N' if p[1] == 'O' else p[1], 'r' if returns else 'x')
     return tok
 
 
@@ -75,7 +100,9 @@ def _call(tok, env):
     x = signal_of(env['sig'])
     kw = {}
     if v != 'O':
-        kw['verbose'] = None if v == 'N' else LEVELS[v]
+        kw['verbose'] = None if v == 'N' else BAD_VERB[v] if v in BAD_VERB else LEVELS[v]
+    if mode == 'k':
+        return emd.sift.sift(X=x, max_imfs=3, **kw)
     if mode == 'x':
         x = np.tile(x[:, None, None], (1, 2, 3))
     elif mode == 'y':
@@ -233,7 +260,7 @@ def _baseline_root(sig, fns):
     sys.stdout = env['out']
     out = {}
     for fn in fns:
-        rec = observe('c:O:r:' + fn, env)
+        rec = observe('c:O:k' if fn == 'k' else 'c:O:r:' + fn, env)
         out[fn] = rec[2] if rec[1] is None else 'error:' + str(rec[1])
     return out
 
@@ -243,7 +270,7 @@ def run_history(start, prefix, depth=0, alphabet=ALPHABET, sig=0):
     needs_file = any(t.startswith('suf') for t in prefix)
     tmp = tempfile.mkdtemp(prefix='emdlog-') if needs_file else None
     try:
-        fns = sorted({parse_call(t)[2] for t in list(prefix) + (list(alphabet) if depth > 0 else []) if is_call(t)})
+        fns = sorted({baseline_key(t) for t in list(prefix) + (list(alphabet) if depth > 0 else []) if is_call(t)})
         base = _in_child(lambda: _baseline_root(sig, fns)) if fns else {}
         out = _in_child(lambda: _history_root(start, list(prefix), depth, list(alphabet), sig, tmp or ''))
         if not isinstance(out, dict) or '__child_error__' in out:
